@@ -203,6 +203,32 @@ fn draw_once(rng: &mut Rng) -> (String, Pd) {
     }
 }
 
+/// Heavily kinked knot diagrams: a small knot diagram with 28-39 Reidemeister-1 kinks of random
+/// sign and side (33-41 crossings in total, beyond one machine word of 32 resolution bits).  The
+/// homology is that of the kink-free diagram, which is returned as well.
+pub fn draw_kinked(rng: &mut Rng) -> (String, Pd, Pd) {
+    let (name, base): (String, Pd) = match rng.below(5) {
+        0 => ("unknot".into(), vec![*rng.pick(&[[1, 2, 2, 1], [1, 1, 2, 2], [2, 2, 1, 1], [2, 1, 1, 2]])]),
+        1 => ("3_1".into(), table("3_1")),
+        2 => ("3_1m".into(), mirror(&table("3_1"))),
+        3 => ("4_1".into(), table("4_1")),
+        _ => ("5_2".into(), table("5_2")),
+    };
+    let k = 33 - base.len().min(5) + rng.below(8) as usize;
+    let mut pd = base.clone();
+    // mostly one sign: whole runs of resolution bits beyond the 32nd are then 0 or 1
+    let bias = rng.below(3);
+    // the kinks sit one after the other along the strands of the base diagram, never on the loop of
+    // another kink: the cost of the library on such diagrams grows linearly with the number of
+    // kinks (nested curls can take it minutes and tens of gigabytes, which is a cost, not a defect)
+    let es = Diagram::from_pd(&base).edges();
+    for _ in 0..k {
+        let kind = match bias { 0 => rng.below(4) as u32, 1 => *rng.pick(&[0u32, 1, 0, 1, 2]), _ => *rng.pick(&[2u32, 3, 2, 3, 0]) };
+        pd = add_kink(&pd, *rng.pick(&es), kind);
+    }
+    (format!("{name}+{k}k"), pd, base)
+}
+
 /// Big diagrams (15-30 crossings): far beyond the cube reference, used with route-agreement,
 /// universal-coefficient and cross-run oracles.  They are where torsion other than Z/2 lives
 /// (Z/4 in T(4,5), Z/3 and Z/5 in T(5,6)) and where size-gated code paths are reached.
